@@ -22,6 +22,7 @@ func init() {
 			"decoded messages come from the foreign peer with arbitrary alg values; a signer fault followed by fail-over to a signer of another algorithm on the same message value is one of the histories. " +
 			"Oracle: mismatch => error (ErrAlgorithmMismatch for integers) and the recording seam saw no call; alg absent and no external => Verify errors, Sign errors or the emitted protected bytes carry the signer's alg and are the bytes inside the recorded ToBeSigned; " +
 			"decoded: the seam is reached exactly when the alg the reference parser reads from the raw protected bytes equals the verifier's; ledger: every signature emitted left in a message whose protected alg equals the signing algorithm. " +
+			"Decoded messages also come with histories: destination reused, same bytes decoded before and the first copy's parsed header edited, raw buckets re-parsed into used Headers/ProtectedHeader values. " +
 			"Non-trivial = an attempt was judged; distinct = distinct (target, alg-value kind, external, raw, spelling class, outcome).",
 		Assumptions: []string{"caller-supplied raw protected bytes are consistent with the parsed map (the API documents raw bytes as taking precedence)", "input model of DESIGN 2.2"},
 		Real:        []string{"github.com/veraison/go-cose", "github.com/fxamacker/cbor/v2", "Go crypto behind the recording signer"},
